@@ -155,11 +155,21 @@ func (r *Report) Finish() int {
 			known[k.Key] = k
 		}
 	}
-	// vacuity guard
+	// vacuity guard: a rule that lost its anchors gives no verdict — unless other obligations are violated, which are reported first
+	anyFail := false
+	for _, o := range r.Obligations {
+		if !o.OK {
+			anyFail = true
+		}
+	}
 	for _, name := range r.ruleOrder {
 		st := r.Rules[name]
 		if st.Instances < st.Floor {
-			fatalf("rule %s matched %d instance(s), below the confirmed floor %d: the rule would pass vacuously (anchor lost?)", name, st.Instances, st.Floor)
+			msg := fmt.Sprintf("rule %s matched %d instance(s), below the confirmed floor %d: the rule would pass vacuously (anchor lost?)", name, st.Instances, st.Floor)
+			if !anyFail {
+				fatalf("%s", msg)
+			}
+			fmt.Println("NOTE: " + msg)
 		}
 	}
 	sort.SliceStable(r.Obligations, func(i, j int) bool {
